@@ -735,4 +735,46 @@ theorem C10_comment_stays_comment :
     subst ht
     simp [blanks, Spec.Text.splitDollar, words, wordsAux]
 
+/-! ## blank lines; lines that fit -/
+
+theorem not_blank_of_stripNonEmpty (l : Str) (h : stripNonEmpty l = true) : Spec.Text.isBlankLine l = false := by
+  simp only [stripNonEmpty, List.any_eq_true, Bool.not_eq_true'] at h
+  obtain ⟨c, hc, hs⟩ := h
+  cases hb : Spec.Text.isBlankLine l with
+  | false => rfl
+  | true =>
+    simp only [Spec.Text.isBlankLine, List.all_eq_true, beq_iff_eq] at hb
+    have := hb c hc
+    subst this
+    have : pyIsSpace ' ' = true := by decide
+    rw [this] at hs; cases hs
+
+/-- C10_noblank_data — the data lines `_wrap_line` produces for a line that had to be wrapped are never blank
+    (a blank line would end the block): for every line, width and indents. -/
+theorem C10_noblank_data (line : Str) (W : Nat) (init subs : Str)
+    (hnc : isCommentLine (expandTabs Gen.tabSize line) = false)
+    (hlong : ¬ init.length + (expandTabs Gen.tabSize line).length ≤ W)
+    (hnd : (partitionDollar (expandTabs Gen.tabSize line)).2.1 = false) :
+    ∀ l ∈ wrapLine line W init subs, Spec.Text.isBlankLine l = false := by
+  intro l hl
+  unfold wrapLine at hl
+  simp only [hnc, hlong, hnd, if_false, Bool.false_eq_true] at hl
+  exact not_blank_of_stripNonEmpty l (List.mem_filter.mp hl).2
+
+/-- non-vacuity: `1 0 -1` followed by 100 blanks is such a line in the 80-column regime -/
+example : isCommentLine (expandTabs Gen.tabSize ("1 0 -1".toList ++ blanks 100)) = false ∧
+    ¬ ([] : Str).length + (expandTabs Gen.tabSize ("1 0 -1".toList ++ blanks 100)).length ≤ 80 ∧
+    (partitionDollar (expandTabs Gen.tabSize ("1 0 -1".toList ++ blanks 100))).2.1 = false := by decide
+
+/-- C10_fits_unchanged — a line that fits is written as it is (tabs expanded, initial indent in front): nothing is
+    wrapped, so it starts an input / is a comment exactly when the unwrapped line does. -/
+theorem C10_fits_unchanged (line : Str) (W : Nat) (init subs : Str) :
+    (isCommentLine (expandTabs Gen.tabSize line) = true → (expandTabs Gen.tabSize line).length ≤ W →
+      wrapLine line W init subs = [expandTabs Gen.tabSize line]) ∧
+    (isCommentLine (expandTabs Gen.tabSize line) = false → init.length + (expandTabs Gen.tabSize line).length ≤ W →
+      wrapLine line W init subs = [init ++ expandTabs Gen.tabSize line]) := by
+  constructor
+  · intro hc hf; unfold wrapLine; simp only [hc, hf, if_true]
+  · intro hc hf; unfold wrapLine; simp only [hc, hf, if_true, if_false, Bool.false_eq_true]
+
 end MontePyVerif.C10
